@@ -280,6 +280,13 @@ def gen_float_case(rng, idx):
         elif o == "shift":
             steps.append({"name": "shift", "v": [round(rng.uniform(-10, 10), 3) for _ in range(3)]})
         elif o == "rotate":
+            if rng.random() < 0.25:
+                # small refinement updates: tiny but non-zero rotations (fractions of a degree) must be applied as well
+                tiny = rng.choice([0.4, 0.1, 0.03, 0.005])
+                ang = rng.choice([[tiny, 0.0, 0.0], [0.0, tiny, 0.0], [tiny, tiny / 2, -tiny / 3], [90.0, tiny, -90.0]])
+                for _ in range(rng.choice([1, 1, 3])):
+                    steps.append({"name": "rotate", "ang": list(ang)})
+                continue
             steps.append({"name": "rotate", "ang": [rng.uniform(-360, 360), rng.uniform(-180, 180), rng.uniform(-360, 360)]})
         else:
             steps.append({"name": "flip", "kind": rng.choice(["none", "table", "single"] if ntomo == 1 else ["none", "table"])})
